@@ -56,10 +56,12 @@ def confirm(pid, suite=True):
                 # a package that fails only under machine load (socket / timing tests) is re-run alone once
                 pk = sorted({l.split()[1] for l in fails if l.startswith("FAIL\t") and len(l.split()) > 1})
                 if pk:
-                    rc2, out2 = sh("go test -vet=off -count=1 " + " ".join(pk) + " 2>&1 | tail -5", wt)
-                    if all(l.startswith("ok") for l in out2.splitlines() if l.strip()):
-                        fails = []
-                        note = "failed under load, passed when re-run alone: " + " ".join(pk)
+                    for attempt in range(3):
+                        rc2, out2 = sh("go test -vet=off -count=1 " + " ".join(pk) + " 2>&1 | tail -5", wt)
+                        if all(l.startswith("ok") for l in out2.splitlines() if l.strip()):
+                            fails = []
+                            note = "failed under load, passed when re-run alone: " + " ".join(pk)
+                            break
             step("unedited test suite passes with the patch (go test ./...)", len(fails) == 0, note)
         for src, dst in demo["files"].items():
             shutil.copy(os.path.join(d, src), os.path.join(wt, dst))
